@@ -76,3 +76,52 @@ MPI_OPERATION(op_commutative)
   o["rc"] = MPI_Op_commutative(R.op(a), &c);
   o["commute"] = c;
 }
+
+/* One-sided accumulate on hex data (C31: MPI_REPLACE / MPI_NO_OP and the other predefined operators through RMA).  Collective:
+ * {"op":"rma_acc_hex","win":hex (initial window content, per rank with {"@":[..]}),"data":hex (origin buffer),
+ *  "origin":rank,"target":rank,"count":n,"type":t,"mop":o,"mode":"acc"|"getacc"|"fop","comm"?}
+ * every rank: Win_create over its buffer, Win_fence; the origin calls MPI_Accumulate / MPI_Get_accumulate / MPI_Fetch_and_op
+ * (displacement 0); Win_fence, Win_free.  -> rc (of the RMA call, on the origin), "win_after": hex, "result": hex (origin,
+ * getacc/fop), "create_rc", "fence_rc", "guards" */
+MPI_OPERATION(rma_acc_hex)
+{
+  auto win0 = from_hex(a.at("win").get<std::string>());
+  auto data = from_hex(a.at("data").get<std::string>());
+  size_t nw = win0.size(), nd = data.size();
+  auto bw = guarded(win0, 0);
+  auto bd = guarded(data, 0);
+  std::vector<unsigned char> br(nd + 2 * G, 0xA5);
+  memset(br.data() + G, 0x5C, nd);
+  MPI_Comm comm    = R.comm(a);
+  MPI_Datatype t   = R.type(a);
+  int count        = a.at("count").get<int>();
+  int origin       = a.at("origin").get<int>();
+  int target       = a.at("target").get<int>();
+  std::string mode = a.value("mode", std::string("acc"));
+  int me           = -1;
+  MPI_Comm_rank(comm, &me);
+  MPI_Win win    = MPI_WIN_NULL;
+  o["create_rc"] = MPI_Win_create(bw.data() + G, static_cast<MPI_Aint>(nw), 1, MPI_INFO_NULL, comm, &win);
+  int frc        = MPI_Win_fence(0, win);
+  int rc         = 0;
+  if (me == origin) {
+    if (mode == "acc")
+      rc = MPI_Accumulate(bd.data() + G, count, t, target, 0, count, t, R.op(a), win);
+    else if (mode == "getacc")
+      rc = MPI_Get_accumulate(bd.data() + G, count, t, br.data() + G, count, t, target, 0, count, t, R.op(a), win);
+    else if (mode == "fop")
+      rc = MPI_Fetch_and_op(bd.data() + G, br.data() + G, t, target, 0, R.op(a), win);
+    else
+      throw BadCase("unknown rma mode");
+  }
+  frc |= MPI_Win_fence(0, win);
+  o["rc"]        = rc;
+  o["fence_rc"]  = frc;
+  o["win_after"] = to_hex(bw.data() + G, nw);
+  if (me == origin) {
+    o["result"]     = to_hex(br.data() + G, nd);
+    o["data_after"] = to_hex(bd.data() + G, nd);
+  }
+  o["guards"]  = guards_ok(bw, nw) && guards_ok(bd, nd) && guards_ok(br, nd);
+  o["free_rc"] = MPI_Win_free(&win);
+}
